@@ -305,14 +305,16 @@ def outcome (skip : Bool) (bad1 bad2 : Nat → Bool) (coll : Nat → Nat → Opt
 def mkJobs (oc : Nat → Nat → Outcome) (flat : List (Nat × Nat)) : List Job :=
   flat.map (fun m => { prim := m.1, sec := m.2, out := oc m.1 m.2 })
 
+/-- `if processes is None: processes = 1` -/
+def procCount : Option Nat → Nat
+  | none => 1
+  | some k => k
+
 /-- the chunks handed to the worker processes (`[]` = "nothing to collocate") -/
 def plan (ms : List (Nat × List Nat)) (processes : Option Nat) :
     Except Err (List (List (Nat × List Nat))) :=
   if ms.isEmpty then .ok [] else
-  let p := match processes with
-    | none => 1
-    | some k => k
-  match chunks (min p ms.length) ms with
+  match chunks (min (procCount processes) ms.length) ms with
   | none => .error .valueError
   | some cs => .ok cs
 
